@@ -143,7 +143,7 @@ int main()
   set_gama_language(en);
   run("1. angle, 1 gon blunder = 15708 mm at 1000 m, stdev 1000 cc: expected excluded; observed kept", angle_scaled);
   run("2. correlated vector, dx and dy 2000 mm off: expected both excluded; observed only dx", vec_corr);
-  run("3. angle 0.1 gon blunder, arms 1 m / 10 km: expected both angles excluded; observed only the one whose bs arm is long", angle_arm);
-  run("4. observed coordinates: expected PD unchanged; observed one more point (id \"\")", coords);
+  run("3. angle 0.1 gon blunder, arms 1 m / 10 km: expected both angles excluded (REPAIRED by 7cdeba6; before it only the one whose bs arm is long)", angle_arm);
+  run("4. observed coordinates: expected PD unchanged (REPAIRED by 29733db; before it one more point with the id \"\")", coords);
   return 0;
 }
